@@ -299,7 +299,7 @@ def _run_impl_one(layer, lines, mode, args=(), env_extra=None, timeout=None):
     env["ZI_MODE"] = mode
     env["PYTHONPATH"] = VERIF
     if timeout is None:
-        timeout = int(os.environ.get("VERIF_IMPL_TIMEOUT", "0")) or max(60, len(lines) // 250)
+        timeout = int(os.environ.get("VERIF_IMPL_TIMEOUT", "0")) or max(90, len(lines) // 60)
     try:
         p = subprocess.run([PY, "-m", "harness.impl_exec", layer] + list(args), input="\n".join(lines) + "\n",
                            capture_output=True, text=True, env=env, timeout=timeout, cwd=VERIF, preexec_fn=_limit_child)
